@@ -989,9 +989,11 @@ class Interp(Ops):
             if c is not None:
                 return self.apply_contract(c, self.argmap_for(None, c, None, args, kwargs), node)
             if cls in self.db.shapes:
-                # external class described only by its sidecar shape: a fresh object with unset fields
-                return self.new_obj(cls, {})
+                # external class described only by its sidecar shape: a fresh object; keyword arguments become fields
+                return self.new_obj(cls, dict(kwargs))
             raise Unsupported(f"instantiation of unknown class {cls}")
+        if "TypedDict" in ci.bases:
+            return self.new_dict(dict(kwargs))
         if "NamedTuple" in ci.bases:
             names = [f[0] for f in ci.fields]
             vals = dict(zip(names, args))
